@@ -68,8 +68,10 @@ def schedules(draw, spawner='POPEN'):
             moves.append(['exit', draw(st.integers(0, 3))])
         elif k < 16:
             moves.append(['cancel', draw(st.lists(st.integers(0, nt - 1), min_size=1, max_size=2))])
-        elif k < 18:
+        elif k < 17:
             moves.append(['tick', draw(st.sampled_from([0.5, 1, 2, 6, 40]))])
+        elif k < 18:
+            moves.append(['startup', draw(st.integers(0, 3))])
         else:
             moves.append(['submit'])
     return {'kind': 'sched', 'spawner': spawner, 'bulks': bulks, 'moves': moves}
@@ -168,6 +170,27 @@ def sweep2_cases(tier):
                         yield {'kind': 'sweep', 'spawner': 'POPEN', 'bulks': [specs], 'moves': moves}
 
 
+def startup_cases(tier):
+    """a task with a start-up limit reports its start-up in time, then runs longer than that
+    limit: it must not be killed by the start-up limit (with a run-time limit: only by that one)"""
+    for su in (1, 5):
+        for to in (0, 5, 30):
+            for tick in (0.5, 2, 7, 40):
+                for watch_first in (0, 40):
+                    for late_exit in (True, False):
+                        spec = {'exit': 0, 'startup_timeout': su}
+                        if to:
+                            spec['timeout'] = to
+                        moves = [['submit'], ['named', 'intake', 60]]
+                        if watch_first:
+                            moves.append(['named', 'to', watch_first])
+                        moves += [['startup', 0], ['named', 'to', 40], ['tick', tick], ['named', 'to', 40],
+                                  ['named', 'watch', 40]]
+                        if late_exit:
+                            moves += [['exit', 0], ['named', 'watch', 40]]
+                        yield {'kind': 'sweep', 'spawner': 'POPEN', 'bulks': [[spec]], 'moves': moves}
+
+
 def parts(tier):
     return [
         Part('popen_schedules', schedules(), quick=300, thorough=2500),
@@ -175,6 +198,7 @@ def parts(tier):
         Part('one_task_interleavings', enum=dfs_cases),
         Part('preemption_sweep', enum=sweep_cases),
         Part('two_task_sweep', enum=sweep2_cases),
+        Part('startup_report', enum=startup_cases),
     ]
 
 
@@ -190,7 +214,7 @@ def normalise(case):
                 continue
             if m[0] in ('until', 'named') and len(m) < 3:
                 continue
-            if m[0] in ('run', 'exit', 'tick') and len(m) < 2:
+            if m[0] in ('run', 'exit', 'tick', 'startup') and len(m) < 2:
                 continue
             if m[0] == 'cancel' and (len(m) < 2 or not m[1]):
                 continue
